@@ -68,13 +68,11 @@ Tag(r) ==
       alt0 == Resolve([d EXCEPT !.pre = -1])
       alt2 == ResolveWith(d, Mode2(d), Mode2(d))
       \* SelfMod: under that reading the instruction overwrites its own addressing registers, which the README leaves open
-  IN IF d.pre # -1 /\ Explains(Core(r, d, alt0, st0)) THEN "aspre0"
-     ELSE IF d.pre # -1 /\ Explains(Core(r, d, alt2, st0)) THEN "assecond"
-     ELSE IF st0.r.F % 2 = 1 /\ Explains(Core(r, d, Resolve(d), st0c)) THEN "cin-cleared"
-     ELSE IF ImemEdge(st0, Resolve(d)) THEN "edge"
-     ELSE IF d.pre # -1 /\ SelfMod(st0, alt0) THEN "aspre0"
-     ELSE IF d.pre # -1 /\ SelfMod(st0, alt2) THEN "assecond"
-     ELSE ""
+      t1 == IF d.pre # -1 /\ (Explains(Core(r, d, alt0, st0)) \/ SelfMod(st0, alt0)) THEN <<"aspre0">> ELSE <<>>
+      t2 == IF d.pre # -1 /\ (Explains(Core(r, d, alt2, st0)) \/ SelfMod(st0, alt2)) THEN <<"assecond">> ELSE <<>>
+      t3 == IF st0.r.F % 2 = 1 /\ Explains(Core(r, d, Resolve(d), st0c)) THEN <<"cin-cleared">> ELSE <<>>
+      t4 == IF ImemEdge(st0, Resolve(d)) THEN <<"edge">> ELSE <<>>
+  IN t1 \o t2 \o t3 \o t4          \* every reading that explains the record (SelfMod: the README leaves that reading open)
 BadSet == {<<Obs[k].id, Verdicts[k][1], Verdicts[k][2], Tag(Obs[k])>> : k \in {j \in 1..Len(Obs) : Verdicts[j][1] \notin {"ok", "unspec", "RefAccept"}}}
 Skipped == {<<Obs[k].id, Verdicts[k][1]>> : k \in {j \in 1..Len(Obs) : Verdicts[j][1] \in {"unspec", "RefAccept"}}}
 ASSUME PrintT(<<"JUDGE", Len(Obs), BadSet, Skipped>>)
